@@ -93,24 +93,42 @@ def Key.isMulti : Key → Bool
 
 /-! ### reference definitions of the two util.py slice functions -/
 
-/-- `util.slice_to_ascending_slice(key, size)` -/
-def sliceToAscending (key : PySlice) (size : Int) : PySlice :=
+/-- normalisation of a negative start at the top of `slice_to_ascending_slice`
+    (outer `none` = the early `return EMPTY_SLICE`: descending from before the first position) -/
+def normStart (a : Option Int) (size : Int) : Option (Option Int) :=
+  match a with
+  | none => some none
+  | some a => if a < 0 then (if a + size < 0 then none else some (some (a + size))) else some (some a)
+
+/-- normalisation of a negative stop (a stop before the first position is the same as no stop) -/
+def normStop (b : Option Int) (size : Int) : Option Int :=
+  match b with
+  | none => none
+  | some b => if b < 0 then (if b + size ≥ 0 then some (b + size) else none) else some b
+
+/-- `util.slice_to_ascending_slice(key, size)`: a slice with a positive step covering the same
+    positions; `none` = ZeroDivisionError (step 0). -/
+def sliceToAscending (key : PySlice) (size : Int) : Option PySlice :=
   match key.step with
-  | none => key
+  | none => some key
   | some st =>
-    if st > 0 then key else
-    let stop := key.start.map (· + 1)
-    if st = -1 then
-      ⟨key.stop.map (· + 1), stop, some 1⟩
-    else
-      let step := st.natAbs
-      let start0 : Int := match key.start with
-        | none => size - 1
-        | some v => min (size - 1) v
-      let start : Int := match key.stop with
-        | none => start0 - step * (Int.fdiv start0 step)
-        | some kstop => start0 - step * (Int.fdiv (start0 - kstop - 1) step)
-      ⟨some start, stop, some step⟩
+    if st > 0 then some key else
+    match normStart key.start size with
+    | none => some ⟨some 0, some 0, none⟩       -- EMPTY_SLICE
+    | some kstart =>
+      let kstop := normStop key.stop size
+      let stop := kstart.map (· + 1)
+      if st = -1 then some ⟨kstop.map (· + 1), stop, some 1⟩
+      else if st = 0 then none
+      else
+        let step : Int := st.natAbs
+        let start0 : Int := match kstart with
+          | none => size - 1
+          | some v => min (size - 1) v
+        let start : Int := match kstop with
+          | none => start0 - step * (Int.fdiv start0 step)
+          | some ks => start0 - step * (Int.fdiv (start0 - ks - 1) step)
+        some ⟨some start, stop, some step⟩
 
 /-- `util.slice_to_inclusive_slice(key, offset)` -/
 def sliceToInclusive (key : PySlice) (offset : Int) : PySlice :=
